@@ -1,7 +1,7 @@
 (* C13 — memory-mapped and record-based CAMx readers agree. Statements only.
    Both readers are tied to the specification layout: the Memmap model by C09/C14's theorems, the record
    reader through its seek arithmetic TRANSLATED from camxfiles/uamiv/Read.py and camxfiles/timetuple.py. *)
-From PNC Require Import Base.Util Base.Words Gen.Camx Model.Uamiv Proofs.UamivProofs Proofs.CamxReadProofs.
+From PNC Require Import Base.Util Base.Words Gen.Camx Model.Uamiv Proofs.UamivProofs Proofs.CamxReadProofs Proofs.UamivRecordProofs.
 Import Coq.Lists.List. Import ListNotations.
 Local Open Scope Z_scope.
 
@@ -23,6 +23,31 @@ Theorem C13_memmap_presents_content : forall u, wf u = true -> u_steps u <> [] -
 Proof. exact mm_read_enc. Qed.
 Print Assumptions C13_memmap_presents_content.
 
+(* Both readers present the SAME cells, for every well-formed file of any size: what the record reader
+   gets when it seeks to the position its translated arithmetic computes for (step t, species s, layer k)
+   — in a reader state that agrees with the file header — and unpacks "i" + "10i" + cell_count floats is
+   exactly the cell list the Memmap reader model presents for (t, s, k). *)
+Theorem C13_readers_agree_on_data : forall (u : uamiv) (self : ur_self) t s k d tm,
+  wf u = true ->
+  (t < length (u_steps u))%nat -> (s < length (u_spc u))%nat -> (k < Z.to_nat (u_nz u))%nat ->
+  ur_nspec self = nspec u -> ur_nlayers self = u_nz u ->
+  ur_data_start_byte self = 4 * hdr_words u ->
+  ur_padded_size self = 4 * (13 + u_nx u * u_ny u) ->
+  ur_padded_time_hdr_size self = 24 ->
+  Z.quot (tt_timediff (ur_start_date self, ur_start_time self) (d, tm) 2400) (ur_time_step self) = Z.of_nat t ->
+  let pos := ur_recordposition self d tm (Z.of_nat s + 1) (Z.of_nat k + 1) in
+  firstn (Z.to_nat (u_nx u * u_ny u)) (skipn 12 (skipn (Z.to_nat (pos / 4)) (enc u)))
+  = nth k (nth s (nth t (v_data (view_of u)) []) []) [].
+Proof. exact record_reader_reads_content. Qed.
+Print Assumptions C13_readers_agree_on_data.
+
+(* the record found there is the complete Fortran record of that species/layer: marker, 1, name, cells, marker *)
+Theorem C13_record_at_seek_position : forall (u : uamiv) t s k, wf u = true ->
+  (t < length (u_steps u))%nat -> (s < length (u_spc u))%nat -> (k < Z.to_nat (u_nz u))%nat ->
+  exists rest, skipn (rec_word_offset u t s k) (enc u) = frame1 (cell_record u t s k) ++ rest.
+Proof. intros u t s k H. exact (record_at_offset u H t s k). Qed.
+Print Assumptions C13_record_at_seek_position.
+
 (* Time iteration of the record reader (translated generator timetuple.timerange, fuel-bounded):
    it terminates with exactly the orbit of the start time whenever the end time is reached... *)
 Theorem C13_timerange_terminates : forall n step eod d1 t1 d2 t2,
@@ -40,6 +65,18 @@ Theorem C13_timerange_diverges_refuted : forall fuel step eod d2 t2 d1 t1,
   tt_timerange_loop fuel step eod d2 t2 d1 t1 = None.
 Proof. exact timerange_loop_diverges. Qed.
 Print Assumptions C13_timerange_diverges_refuted.
+
+Example C13_readers_agree_inhabited :
+  let u := {| u_name := repeat 65 10; u_note := repeat 66 60; u_itzon := 0; u_dates := [2001; 0; 2001; 2];
+     u_gpre := repeat 7 7; u_nx := 2; u_ny := 1; u_nz := 2; u_gpost := repeat 5 5;
+     u_spc := [repeat 80 10; repeat 81 10];
+     u_steps := [([2001; 0; 2001; 1], [[[11; 12]; [13; 14]]; [[21; 22]; [23; 24]]]);
+                 ([2001; 1; 2001; 2], [[[31; 32]; [33; 34]]; [[41; 42]; [43; 44]]])] |} in
+  let self := {| ur_nlayers := 2; ur_start_date := 2001; ur_start_time := 0; ur_time_step := 1; ur_nspec := 2;
+                 ur_data_start_byte := 4 * hdr_words u; ur_padded_size := 4 * 15; ur_padded_time_hdr_size := 24 |} in
+  wf u = true /\ Z.quot (tt_timediff (2001, 0) (2001, 1) 2400) 1 = 1
+  /\ firstn 2 (skipn 12 (skipn (Z.to_nat (ur_recordposition self 2001 1 2 2 / 4)) (enc u))) = [43; 44].
+Proof. vm_compute. repeat split; reflexivity. Qed.
 
 Example C13_day_rollover : tt_timerange 30 (99364, 2200) (99365, 100) 100 2400
   = Some [(99364, 2200); (99364, 2300); (99365, 0)].
